@@ -1,10 +1,96 @@
-//! `vh_runchk`: `vharness runbatch` under the layout-checking global allocator; every record gets
-//! `"layout_mismatches"` (blocks released with a size/alignment other than the one they were obtained with).
-use vharness::chkalloc::CheckingAlloc;
+//! `vh_runchk`: `vharness runbatch` under the checking global allocator; every record gets
+//! `"layout_mismatches"` (blocks released with a size/alignment other than the one they were obtained with)
+//! and `"global_leak"`: what the system allocator still holds after the vm and everything the run created
+//! are gone, compared with what it held immediately before the run (C20: garbage is reclaimed = every block
+//! the runtime lets go of is handed back).  One-time process-wide initialisations (lazy statics of a native
+//! used for the first time) would show up once: a non-zero difference is therefore measured again on a second
+//! run of the same request in the same process, and that second figure is the one reported.
+use std::io::{BufRead, Write};
+use std::path::PathBuf;
+use vharness::chkalloc::{self, CheckingAlloc};
+use vharness::run::{json_str, outcome_json, parse_opts, run_with, Opts};
 
 #[global_allocator]
 static GLOBAL: CheckingAlloc = CheckingAlloc;
 
+struct Measured {
+  json: String,
+  judged: bool,
+  blocks: isize,
+  bytes: isize,
+  sizes: Vec<usize>,
+}
+
+fn measure(opts: &Opts, file: &str) -> Measured {
+  // the compile log of the verification hooks accumulates per thread: it is the harness', not the run's
+  drop(laythe_vm::compiler::verif_peephole::take_log());
+  let (b0, y0) = chkalloc::live();
+  let s0 = chkalloc::next_serial();
+  // everything the run creates (source text, vm, captured output, the outcome) is dropped at the end of this
+  // block, except the record itself
+  let (json, judged) = {
+    if opts.repl {
+      let o = run_with(PathBuf::from("repl"), "", opts);
+      (outcome_json(file, &o), false)
+    } else {
+      match std::fs::read_to_string(file) {
+        Ok(src) => {
+          let o = run_with(PathBuf::from(file), &src, opts);
+          // a host panic or a step limit inside a native leaves the vm undropped on purpose: not judged
+          let judged = o.status.starts_with("Ok:") || o.status.starts_with("RuntimeError:") || o.status.starts_with("CompileError:");
+          (outcome_json(file, &o), judged)
+        },
+        Err(e) => (
+          format!("{{\"file\":{},\"status\":\"UNREADABLE\",\"stdout\":\"\",\"stderr\":{}}}", json_str(file), json_str(&e.to_string())),
+          false,
+        ),
+      }
+    }
+  };
+  drop(laythe_vm::compiler::verif_peephole::take_log());
+  let (b1, y1) = chkalloc::live();
+  let own = chkalloc::size_of(json.as_ptr() as usize).unwrap_or(0);
+  let blocks = b1 as isize - b0 as isize - 1;
+  let bytes = y1 as isize - y0 as isize - own as isize;
+  let mut sizes = vec![];
+  if judged && (blocks != 0 || bytes != 0) {
+    for (p, size, _) in chkalloc::live_since(s0, 12) {
+      if p != json.as_ptr() as usize && sizes.len() < 10 {
+        sizes.push(size);
+      }
+    }
+  }
+  Measured { json, judged, blocks, bytes, sizes }
+}
+
 fn main() {
-  std::process::exit(vharness::run::main_batch());
+  std::panic::set_hook(Box::new(|_| {}));
+  let stdout = std::io::stdout();
+  for line in std::io::stdin().lock().lines() {
+    let line = line.unwrap();
+    let words: Vec<String> = line.split_whitespace().map(|s| s.to_string()).collect();
+    let (opts, files) = parse_opts(&words);
+    for f in files {
+      let first = measure(&opts, &f);
+      let (m, rerun, first_delta) = if first.judged && (first.blocks != 0 || first.bytes != 0) {
+        let fd = (first.blocks, first.bytes);
+        drop(first);
+        (measure(&opts, &f), true, fd)
+      } else {
+        let fd = (first.blocks, first.bytes);
+        (first, false, fd)
+      };
+      let mut rec = m.json.clone();
+      if rec.ends_with('}') {
+        rec.pop();
+        rec.push_str(&format!(
+          ",\"global_leak\":{{\"judged\":{},\"blocks\":{},\"bytes\":{},\"rerun\":{},\"first_run\":[{},{}],\"sizes\":{:?}}}}}",
+          m.judged, m.blocks, m.bytes, rerun, first_delta.0, first_delta.1, m.sizes
+        ));
+      }
+      let mut out = stdout.lock();
+      writeln!(out, "{}", rec).unwrap();
+      out.flush().unwrap();
+    }
+  }
 }
